@@ -1621,7 +1621,14 @@ private:
     }
     else
     {
-      _peerIndex.erase(pkey);
+      // Several sessions can share one peer address (connectViaListener); the
+      // index entry belongs to the session that receives that peer's datagrams.
+      // Erase it only when it points to the session being closed.
+      auto pit = _peerIndex.find(pkey);
+      if (pit != _peerIndex.end() && pit->second == sid)
+      {
+        _peerIndex.erase(pit);
+      }
     }
 
     _atomicStats.closed++;
